@@ -69,6 +69,10 @@ func corpus(out *lib.Out) {
 		sel, root *lib.Val
 	}{
 		{sharedSel, sharedData},
+		// an empty union next to an edge at exhaustion (replaceRecursiveEdge drops it) and its neighbours
+		{lib.SelRec(1, A(lib.SelUnion(E(), lib.SelUnion())), ""), lib.List(ints(1))},
+		{lib.SelRec(2, A(lib.SelUnion(E(), lib.SelUnion())), ""), lib.List(lib.List(ints(1)))},
+		{lib.SelRec(1, A(lib.SelUnion(lib.SelUnion(), M())), ""), lib.List(ints(1))},
 		{lib.SelRec(3, A(E()), ""), deep},
 		// neighbours that must be fine
 		{lib.SelUnion(lib.SelIndex(1, M()), lib.SelRange(2, 3, M())), ints(10, 11, 12)},
